@@ -163,6 +163,31 @@ def consumers(F):
                 if owner.endswith("::{closure#0}") and owner[:-len("::{closure#0}")] in F.fns:
                     owner = owner[:-len("::{closure#0}")]
                 by_supplier.setdefault(owner, []).append((lit, fn2["file"], line))
+    # a predicate helper (`fn is_withdrawal_directive(d: &AdHocDirective) -> bool { d.name.as_str() == "withdrawal" }`) selects
+    # nothing itself: the consumers are the functions that filter with it
+    from .common import callers_index
+    for owner in list(by_supplier):
+        f = F.fns.get(owner)
+        if f is None or f["def_kind"] == "Closure" or f["locals"][0] != "bool" or len(f["blocks"]) > 10:
+            continue
+        users = set()
+        for caller, ct in callers_index(F).get(owner, []):
+            o2 = caller.get("owner") or caller["path"]
+            while o2.endswith("}") and "::{closure#" in o2 and o2.rsplit("::{closure#", 1)[0] in F.fns:
+                o2 = o2.rsplit("::{closure#", 1)[0]
+            users.add(o2)
+        # also handed over as a function value: `.filter(is_withdrawal_directive)`
+        for g in F.fns.values():
+            if g["crate"] != "tx3_cardano":
+                continue
+            for _, t in mir.calls(g):
+                if owner in (t.get("fnrefs") or ()):
+                    o2 = g.get("owner") or g["path"]
+                    users.add(o2)
+        if users:
+            entries = by_supplier.pop(owner)
+            for u in users:
+                by_supplier.setdefault(u, []).extend(entries)
     keys_of = {}
     for owner, names in by_supplier.items():
         if owner not in F.fns:
